@@ -205,6 +205,17 @@ func checkC14(p *Prog, r *Report) {
 	}
 	fc.ruleAllocator2(r, mem)
 	fc.ruleDirShared(r, dir)
+	// concurrent AtomicCreate calls for one name must not share a temporary file (decided by the C13 analysis R13f)
+	r.Rule("R14d", "concurrent AtomicCreate calls for the same name leave the complete data of one of them (decided by the C13 analysis R13f): the staging path has a per-call fresh component taken from a counter all calls share, or the file is opened with O_EXCL", 1)
+	s13 := NewReport("C13", p)
+	checkC13(p, s13)
+	for _, o := range s13.Obls {
+		if o.Rule == "R13f" {
+			o.Rule = "R14d"
+			r.Obls = append(r.Obls, o)
+			r.ruleIdx["R14d"].Instances++
+		}
+	}
 }
 
 func (fc *fsCtx) allFuncsOf(im *fsImpl) []*ssa.Function {
